@@ -40,7 +40,10 @@ namespace RecInt
     template <size_t K>
     inline ruint<K>& mpz_to_ruint(ruint<K>& a, const mpz_class& b) {
         unsigned int i;
-        mpz_class c(b);
+        // b mod 2^(2^K) in [0, 2^(2^K)): a negative b is stored as its two's complement
+        // (get_ui() and >>= on a negative mpz_class do not walk through the two's-complement limbs)
+        mpz_class c;
+        mpz_fdiv_r_2exp(c.get_mpz_t(), b.get_mpz_t(), NBBITS<K>::value);
 
         reset(a);
         for (i = 0; i < NBLIMB<K>::value; i++) {
